@@ -20,7 +20,7 @@ from native.registry import REPLAYERS, replayer  # noqa: E402,F401
 def main(files):
   # import replayer modules lazily so that a broken one does not take the others down
   from native import shims  # noqa: F401
-  for modname in ("rp_qtools", "rp_quantizers", "rp_misc", "rp_c18"):
+  for modname in ("rp_qtools", "rp_quantizers", "rp_misc", "rp_c18", "rp_c04"):
     try:
       __import__("native." + modname)
     except Exception:  # pylint: disable=broad-except
